@@ -128,9 +128,16 @@ def _run_case(case, ctx):
             lst = [None] * order
             lst[m] = p1
             kw = {k1: lst, k2: {m: p2}}
-        desc = {"gen": g, "kinds": [k1, k2], "mode": m, "form": form}
+        # the request is rejected whatever the budget, the start and the entry point (no sweep and a user start included)
+        n_dbl = int(gen.choice(rs, [0, 0, 1, 1, 3]))
+        via_class = bool(rs.rand() < 0.3)
+        ctx.count("double/%s-start-budget-%s" % ("user" if init_kind == "user" else "built-in", "0" if n_dbl == 0 else "N"))
+        desc = {"gen": g, "kinds": [k1, k2], "mode": m, "form": form, "n_iter_max": n_dbl, "init": init_kind, "class": via_class}
         try:
-            constrained_parafac(X, R, n_iter_max=1, init=init, random_state=seed, **kw)
+            if via_class:
+                ConstrainedCP(R, n_iter_max=n_dbl, init=init, random_state=seed, **kw).fit_transform(X)
+            else:
+                constrained_parafac(X, R, n_iter_max=n_dbl, init=init, random_state=seed, **kw)
         except ValueError:
             ctx.count("double_rejected")
         except Exception as e:  # noqa
@@ -163,8 +170,13 @@ def _run_case(case, ctx):
         else:
             k = int(rs.randint(1, order + 1))
             sel = sorted(rs.choice(order, size=k, replace=False).tolist())
-            kw = {kind: {m: p for m in sel}}
-            per_mode = {m: (kind, p) for m in sel}
+            # a parameter of its own per mode, keys written in any order (a dictionary built up as the modes were decided on)
+            ps = {m: (p if rs.rand() < 0.3 else param_for(rs, kind, X.shape, R)) for m in sel}
+            keys = rs.permutation(sel).tolist()
+            kw = {kind: {m: ps[m] for m in keys}}
+            per_mode = {m: (kind, ps[m]) for m in sel}
+            if keys != sorted(keys):
+                ctx.count("form/dict-keys-not-ascending")
     else:  # mixed kinds on disjoint modes
         form = gen.choice(rs, ["dict", "dict", "list-holes"])
         nk = int(rs.randint(2, min(order, 3) + 1))
